@@ -639,3 +639,7 @@ def run(chk, facts, tier, only=None):
         if only and only != rid:
             continue
         chk.run_rule(rid, desc, lambda fn=fn: fn(chk, facts, spec))
+    if only is None:
+        import c12
+        # a named field advances the positional counter of a record exactly like the equal numeric id (grammar actions for types and values)
+        chk.include(c12, "C12.R3", "C15.R5", facts)
